@@ -1,10 +1,13 @@
 #!/bin/bash
 # usage: seeded_run.sh <patch> <ID...>   applies the patch to /repo, runs the quick checks named, restores /repo
 P=$(readlink -f $1); shift
+SAVE=$(mktemp -d); cp -r /verif/evidence $SAVE/ 2>/dev/null
 cd /repo && git apply $P || { echo "PATCH DOES NOT APPLY to /repo"; exit 2; }
 cd /verif
 for id in "$@"; do
   ./check $id --tier quick 2>&1 | grep -E "^C[0-9]+ tier|VIOLATION|machinery" | head -3 | cut -c1-260
 done
 git -C /repo checkout -- .
+# evidence written while /repo was modified is not evidence about the unchanged tree: restore
+rm -rf /verif/evidence && cp -r $SAVE/evidence /verif/evidence && rm -rf $SAVE
 git -C /repo status --short | head -3
